@@ -277,14 +277,26 @@ impl System {
     }
 
     pub fn model(&self) -> TModel {
-        ActorModel::new(self.cfg.clone(), Vec::new())
-            .actors(self.actors.clone())
-            .init_network(self.network())
-            .lossy_network(if self.lossy { LossyNetwork::Yes } else { LossyNetwork::No })
-            .max_crashes(self.max_crashes)
-            .record_msg_in(rec_in)
-            .record_msg_out(rec_out)
-            .within_boundary(boundary)
+        // The builder calls commute as far as the documented API goes, so the order in which
+        // they are made varies with the system (deterministically): options before or after the
+        // actors, actors added one by one or all at once.
+        let order = self.structural_hash() % 4;
+        let lossy = if self.lossy { LossyNetwork::Yes } else { LossyNetwork::No };
+        let mut m = ActorModel::new(self.cfg.clone(), Vec::new());
+        if order == 1 || order == 3 {
+            m = m.max_crashes(self.max_crashes).lossy_network(lossy).init_network(self.network());
+        }
+        if order >= 2 {
+            for a in self.actors.iter().cloned() {
+                m = m.actor(a);
+            }
+        } else {
+            m = m.actors(self.actors.clone());
+        }
+        if order == 0 || order == 2 {
+            m = m.init_network(self.network()).lossy_network(lossy).max_crashes(self.max_crashes);
+        }
+        m.record_msg_in(rec_in).record_msg_out(rec_out).within_boundary(boundary)
     }
 
     pub fn to_json(&self) -> Value {
